@@ -559,31 +559,47 @@ def run_c14(res, tier, rng, binary):
     else:
         sel, reps = singles + doubles, 4
     tp = TypePicker(rng)
-    root = os.path.join(vlib.scratch(), "root_C14")
-    cases, meta = [{"id": "start", "ops": [{"op": "start", "root": root}]}], {}
-    n = 0
+    # driver cases: batches of 40 requests, each batch starts its own instance on its own root (a dying server then
+    # costs one batch) and removes the root afterwards
+    units, n = [], 0
     for beh in sel:
         bk = beh[0]["bk"]
         rejected_multi = len(bk) == 2 and beh[0]["expect"]["res"] == "err"
         for rep in range(reps if rejected_multi else 1):
             n += 1
             cbs = c14_concretise(rng, tp, bk, n)
-            same_input = all(in_cols(cb) and [(c["name"], c["type"]) for c in in_cols(cb)] == [(c["name"], c["type"]) for c in in_cols(cbs[0])] for cb in cbs)
+            same_input = all([(c["name"], c["type"]) for c in in_cols(cb)] == [(c["name"], c["type"]) for c in in_cols(cbs[0])] for cb in cbs)
             via = rng.choice(["rpc", "csm"]) if same_input else "csm"
             ops, i_req = c14_ops(cbs, n, via)
-            cid = "p%d" % n
-            cases.append({"id": cid, "ops": ops})
-            meta[json.dumps(cid)] = (beh, cbs, ops, i_req, via)
+            units.append((beh, cbs, ops, i_req, via))
+    cases, meta = [], {}
+    for g, ch in enumerate(chunks(units, 40)):
+        root = os.path.join(vlib.scratch(), "root_C14_%d" % g)
+        all_ops = [{"op": "start", "root": root}]
+        for j, (beh, cbs, ops, i_req, via) in enumerate(ch):
+            meta["%d.%d" % (g, j)] = (beh, cbs, ops, i_req, via, json.dumps("g%d" % g), len(all_ops))
+            all_ops += ops
+        all_ops.append({"op": "rmworld", "x": {"dir": root}})
+        cases.append({"id": "g%d" % g, "ops": all_ops})
     obs = vlib.run_cases(binary, cases, timeout=6000)
     stats = collections.Counter()
-    for cid, (beh, cbs, ops, i_req, via) in meta.items():
-        o = obs.get(cid)
+    dead = set()
+    for cid, (beh, cbs, ops, i_req, via, gid, at) in meta.items():
+        o = obs.get(gid)
+        if isinstance(o, list):
+            o = o[at:at + len(ops)]
+        elif isinstance(o, dict) and "died" in o:
+            if gid in dead:
+                continue
+            dead.add(gid)
         bk = beh[0]["bk"]
         replay = {"check": "schema", "prop": "C14", "request": bk, "buckets": cbs, "via": via, "ops": ops, "seed": vlib.seed()}
         if o is None:
             raise Undecided("no observation for case %s" % cid)
         if isinstance(o, dict) and "died" in o:
-            res.violation("server process died (%s) during the write request %s: %s" % (o["died"], [cb["key"] for cb in cbs], (o.get("stderr") or o.get("stdout") or "")[-400:]), replay)
+            res.violation("server process died (%s) during a batch of write requests (first: %s): %s" % (
+                o["died"], [cb["key"] for cb in cbs], (o.get("stderr") or o.get("stdout") or "")[-400:]),
+                dict(replay, ops=[x for x in cases if json.dumps(x["id"]) == gid][0]["ops"]))
             continue
         if any(x.get("driver_error") for x in o):
             raise Undecided("driver error in C14 case %s: %s" % (cid, [x for x in o if x.get("driver_error")][:1]))
@@ -653,7 +669,7 @@ def run_c14(res, tier, rng, binary):
                           w.get("err"), str(now)[:500], str(later)[:500], e["res"] == "err", str(pure)[:500]), replay)
         res.sample({"request": bk, "via": via, "buckets": [{"key": cb["key"], "bt": cb["bt"], "it": cb["it"], "rows": cb["rows"]} for cb in cbs]}, limit=3)
     if not res.cov["samples"]:
-        cid, (beh, cbs, ops, i_req, via) = next(iter(meta.items()))
+        cid, (beh, cbs, ops, i_req, via, gid, at) = next(iter(meta.items()))
         res.sample({"request": beh[0]["bk"], "via": via, "buckets": [{"key": cb["key"], "bt": cb["bt"], "it": cb["it"], "rows": cb["rows"]} for cb in cbs]})
     res.cov["c14_stats"] = dict(stats)
     res.cov["ordered_type_pairs_used"] = len(tp.used)
@@ -908,6 +924,34 @@ def run_c15(res, tier, rng, binary):
     res.assumptions += ["one long column name per schema, the others are short and unique", "U16 columns are created and reloaded but never written",
                         "the restart is a second instance start on the same root inside the driver process"]
     return res.finish()
+
+
+def replay(rp):
+    """python3 tools/check.py --replay replays/Cxx_<hash>.json : run the recorded ops again and print what the code does"""
+    r = rp["replay"]
+    binary = vlib.build_harness(cmd="mv_schema")
+    print("property %s: %s" % (rp["property"], rp["description"][:2000]))
+    if "ops" in r:
+        scripts = [("ops", r["ops"])]
+    else:
+        scripts = [("before restart", r.get("ops_before_restart")), ("after restart", r.get("ops_after_restart"))]
+    cases = [{"id": name, "ops": ops} for name, ops in scripts if isinstance(ops, list)]
+    if not cases:
+        print("the recorded ops were too large to store; re-run the check with VERIF_SEED=%s" % r.get("seed"))
+        return 2
+    if not any(o.get("op") in ("start", "jstart") for o in cases[0]["ops"]):
+        cases[0]["ops"].insert(0, {"op": "start", "root": os.path.join(vlib.scratch(), "root_replay")})
+    obs = vlib.run_cases(binary, cases)
+    for c in cases:
+        o = obs.get(json.dumps(c["id"]))
+        print("--", c["id"])
+        if isinstance(o, dict):
+            print("   process died:", o)
+            continue
+        for op, ob in zip(c["ops"], o):
+            what = op.get("key") or op.get("dest") or [b["key"] for b in op.get("buckets", [])] or ""
+            print("   %-8s %-40s -> %s" % (op["op"], str(what)[:40], json.dumps({k: v for k, v in ob.items() if k != "stack"})[:300]))
+    return 1
 
 
 def run(prop, tier):
